@@ -23,7 +23,7 @@ def cases(tier):
     out = []
     base = corpus.G(1) if tier == "quick" else corpus.G(2)
     ss = corpus.D(base, 1)
-    ss = sorted(set(ss) | set(corpus.token_seqs(corpus.SIGMA_T24, 2 if tier == "quick" else 3)), key=lambda s: (len(s), s))
+    ss = sorted(set(ss) | set(fixfam.GLUE) | set(corpus.token_seqs(corpus.SIGMA_T24, 2 if tier == "quick" else 3)), key=lambda s: (len(s), s))
     for i in range(0, len(ss), 16):
         out.append({"k": "strs", "d": "ansi", "rs": "all", "ss": ss[i : i + 16]})
     g = corpus.G(1) if tier == "quick" else corpus.D(corpus.G(1), 1, "WKX")
@@ -32,6 +32,10 @@ def cases(tier):
             for i in range(0, len(g), 16):
                 out.append({"k": "strs", "d": d, "rs": "all", "ss": g[i : i + 16]})
     out += fixfam.fix_cases(tier, raw=False, rulesets_yaml=("all",))
+    # every rule with options: every assignment of <= 2 of its enumerated options to each validated value,
+    # run (that rule only, lint + fix) on every YAML string written for that rule
+    for code, name, opts in rule_option_assignments():
+        out.append({"k": "ruleopts", "rule": code, "name": name, "opts": opts})
     if tier == "thorough":
         for cfg in OPTION_CFGS:
             b = corpus.G(1) + fixfam.GLUE
@@ -71,6 +75,71 @@ OPTION_CFGS = [
 ]
 
 
+def rule_option_assignments():
+    import itertools
+
+    from sqlfluff.core.rules import get_ruleset
+    from sqlfluff.core.rules.config_info import get_config_info
+
+    info = get_config_info()
+    out = []
+    for code, m in sorted(get_ruleset()._register.items()):
+        kws = getattr(m.rule_class, "config_keywords", []) or []
+        menus = {}
+        for k in kws:
+            v = info.get(k, {}).get("validation")
+            if v is None:
+                continue
+            vals = [0, 1, 2] if isinstance(v, range) else list(v)[:6]
+            menus[k] = vals
+        names = sorted(menus)
+        seen = set()
+        for r in (1, 2):
+            for combo in itertools.combinations(names, r):
+                for vals in itertools.product(*(menus[k] for k in combo)):
+                    opts = dict(zip(combo, vals))
+                    key = tuple(sorted(opts.items(), key=str))
+                    if key not in seen:
+                        seen.add(key)
+                        out.append((code, m.name, opts))
+    return out
+
+
+_BYRULE = {}
+
+
+def ruleopts_items(case):
+    """(one, linter, text) for every YAML string of the rule, that rule alone, options applied on top."""
+    import json as _json
+
+    if not _BYRULE:
+        for y in fixfam.yaml_inputs():
+            _BYRULE.setdefault(y[0], []).append(y)
+    # the operator / comment-adjacent list under the same option assignment (ansi, raw)
+    for s in fixfam.GLUE:
+        if "only" in case and case["only"] != ["glue", s]:
+            continue
+        try:
+            lnt = sq.linter("ansi", "raw", rules=case["rule"], configs={"rules": {case["name"]: dict(case["opts"])}})
+        except Exception:
+            continue
+        yield dict(case, only=["glue", s]), lnt, s
+    for y in _BYRULE.get(case["rule"], []):
+        if "only" in case and case["only"] != [y[0], y[1], y[2]]:
+            continue
+        configs = _json.loads(y[4])
+        d = (configs.get("core") or {}).get("dialect") or "ansi"
+        tpl = (configs.get("core") or {}).get("templater")
+        rules_cfg = dict(configs.get("rules") or {})
+        rules_cfg[case["name"]] = dict(rules_cfg.get(case["name"]) or {}, **case["opts"])
+        cfg2 = dict(configs, rules=rules_cfg)
+        try:
+            lnt = sq.linter(d, tpl, rules=case["rule"], configs=cfg2)
+        except Exception:
+            continue
+        yield dict(case, only=[y[0], y[1], y[2]]), lnt, y[3]
+
+
 def oracle_lint(lnt, text, add, res):
     lf = lnt.lint_string(text)
     return lf
@@ -78,7 +147,7 @@ def oracle_lint(lnt, text, add, res):
 
 def run_case(case):
     res = {"n": 0, "fails": [], "cls": set(), "stats": {}, "nontrivial": 0}
-    for one, lnt, text in fixfam.expand(case):
+    for one, lnt, text in (ruleopts_items(case) if case["k"] == "ruleopts" else fixfam.expand(case)):
         for mode in ("lint", "fix"):
             res["n"] += 1
             o = dict(one, mode=mode)
